@@ -96,7 +96,7 @@ def run_one(d):
     got = {}
     try:
         t = PedigreeDPTable(rs, d["recomb"], ped, d["mode"] == "gl", None if api.get("positions_none") else d["positions"])
-        for g in api.get("getters", ["cost", "part", "sr"]):      # order and repetition of the getters must not matter
+        for g in list(api.get("getters", [])) + ["cost", "part", "sr"]:      # order and repetition of the getters must not matter
             if g == "cost":
                 v = t.get_optimal_cost()
             elif g == "part":
@@ -576,7 +576,9 @@ def gen_instance(rng, kind=None, mode=None, n=None, conflict=False, maxcov=None,
     for r in reads:
         del r["_first"]
     if mode == "gt":
-        if rng.random() < 0.8 or conflict:
+        if nind <= 2 and not conflict and rng.random() < 0.15:
+            gts = [[1] * n for _ in range(nind)]      # all heterozygous (the classical MEC case)
+        elif rng.random() < 0.8 or conflict:
             gts = consistent_genotypes(rng, nind, trios, n)
         else:
             gts = [[rng.randrange(3) for _ in range(n)] for _ in range(nind)]
@@ -610,7 +612,7 @@ def gen_instance(rng, kind=None, mode=None, n=None, conflict=False, maxcov=None,
     api = {"source_ids": [rng.choice([0, 0, 1, 7]) for _ in reads],
            "names": rng.choice(["index", "random", "prefix"]),
            "getters": rng.choice([["cost", "part", "sr"], ["sr", "part", "cost"], ["part", "sr", "cost", "sr", "part"],
-                                  ["sr", "cost", "sr"], ["cost", "cost", "part", "part", "sr"]]),
+                                  ["sr", "cost", "sr", "part"], ["cost", "cost", "part", "part", "sr"]]),
            "name_seed": rng.randrange(1 << 30)}
     if mode == "gt" and rng.random() < 0.25:      # likelihoods supplied although the genotypes are trusted: must be ignored
         api["gl_ignored"] = [[[rng.randint(0, 30) for _ in range(3)] for _ in range(n)] for _ in range(nind)]
@@ -1069,7 +1071,18 @@ def cli_spec(rng):
         "genetic": rng.random() < 0.7,
         "kinds": rng.choice([["snv"], ["snv"], ["snv", "snv", "ins", "del", "mnp"]]),
         "min_gap": rng.choice([25, 40]),
+        "nchrom": rng.choice([1, 1, 2]),
+        "extra_sample": rng.random() < 0.3,                  # an unrelated sample in the same VCF/BAM (phased as its own family)
     }
+    # sample names: random, so that they sort against their role; sometimes sharing a prefix
+    alphabet = "abcdefghijklmnopqrstuvwxyzABCDEFGHIJKLMNOPQRSTUVWXYZ0123456789"
+    pre = rng.choice(["", "", "NA", "sample_"])
+    names = set()
+    while len(names) < 5:
+        names.add(pre + "".join(rng.choice(alphabet) for _ in range(rng.randint(1, 5))))
+    names = sorted(names)
+    rng.shuffle(names)
+    spec["names"] = names
     g = spec["min_gap"]
     spec["len_range"] = rng.choice([[3 * g, 9 * g], [4 * g, 14 * g], [6 * g, 20 * g]])
     return spec
@@ -1109,15 +1122,18 @@ def run_cli_spec(ctx, spec):
     from .. import synth
     rng = random.Random(spec["seed"])
     wd = util.workdir(ctx, "C01cli")
-    samples = CLI_FAMILIES[spec["family"]]
-    sc = synth.make_scenario(rng, nchrom=1, nsamples=len(samples), nvars=spec["nvars"], sample_names=samples,
+    roles = CLI_FAMILIES[spec["family"]] + (["extra"] if spec.get("extra_sample") else [])
+    nm = dict(zip(roles, spec.get("names") or roles))
+    samples = [nm[r] for r in roles]
+    sc = synth.make_scenario(rng, nchrom=spec.get("nchrom", 1), nsamples=len(samples), nvars=spec["nvars"], sample_names=samples,
                              het_fraction=spec["het_fraction"], min_gap=spec["min_gap"], kinds=tuple(spec["kinds"]))
     trios = []
     if spec["family"] != "single":
+        children = [nm[r] for r in roles if r.startswith("child")]
         for c in sc.chroms:
-            for child in samples[2:]:
-                sc.haps[child][c], _ = synth.inherit(rng, sc.haps["father"][c], sc.haps["mother"][c], recomb_prob=spec["recomb_prob"])
-        trios = [(child, "father", "mother") for child in samples[2:]]
+            for child in children:
+                sc.haps[child][c], _ = synth.inherit(rng, sc.haps[nm["father"]][c], sc.haps[nm["mother"]][c], recomb_prob=spec["recomb_prob"])
+        trios = [(child, nm["father"], nm["mother"]) for child in children]
     ref = synth.write_fasta(sc, os.path.join(wd, "ref.fa"))
     vcf = synth.write_vcf(sc, os.path.join(wd, "in.vcf"))
     reads = []
@@ -1197,6 +1213,12 @@ def cli_stream(ctx, specs):
     for spec, (rc, se, traces) in zip(specs, outs):
         ctx.tally("cli.runs")
         ctx.tally(f"cli.family.{spec['family']}" + (".distrust" if spec["distrust"] else ""))
+        if spec.get("nchrom", 1) > 1:
+            ctx.tally("cli.two-chromosomes")
+        if spec.get("extra_sample"):
+            ctx.tally("cli.unrelated-extra-sample")
+        if spec["family"] != "single" and spec.get("names") and spec["names"][2] < min(spec["names"][:2]):
+            ctx.tally("cli.child-name-sorts-before-parents")
         if rc != 0:
             ctx.count(("cli", json.dumps(spec, sort_keys=True)), nontrivial=False)
             ctx.violation("pedmec:cli-crash", f"whatshap phase exited with {rc} on synthetic input {json.dumps(spec, sort_keys=True)}: {se[-400:]}",
@@ -1246,7 +1268,7 @@ def run(ctx):
     rng = ctx.rng
     insts = [json.loads(json.dumps(c)) for c in CORPUS]
     import os
-    nrand = int(os.environ.get("WHVERIF_C01_N") or ctx.n(380, 5000))
+    nrand = int(os.environ.get("WHVERIF_C01_N") or ctx.n(340, 5000))
     for _ in range(nrand):
         insts.append(gen_instance(rng))
     for _ in range(ctx.n(30, 300)):      # malformed stream: trusted genotypes with a Mendelian conflict
